@@ -84,6 +84,8 @@ func NewUpstream(name string) *Upstream {
 			case "404":
 				w.WriteHeader(404)
 				return
+			case "slow-ok":
+				time.Sleep(1500 * time.Millisecond)
 			case "hang":
 				select {
 				case <-r.Context().Done():
